@@ -204,6 +204,8 @@ def run_solver(text, argv_tail, env=None, *, na=None, time_limit=None,
                 if op == "solve":
                     S.solve(timeLimit=time_limit)
                     obs["outputs"].append(("solve", None))
+                    if clk is not None:
+                        obs["virtual_us_after_solve"] = clk.us
                     if _READLOG is not None and not real:
                         _READLOG.flush()
                 elif op == "short":
